@@ -1,21 +1,27 @@
 #!/bin/sh
 # tools/seeded.sh   re-run every stored seeded change (seeded/<id>/patch.diff) against all checks on a scratch copy
 # of /repo's current tree; prints which rules report each one. Exit 0 iff every applicable seed is reported.
-# tools/seeded.sh Cxx   only the seeds of one property
+# tools/seeded.sh Cxx   only the seeds of one property.   SEEDED_JOBS=n runs n at a time (default 4).
 set -u
 HERE=$(cd "$(dirname "$0")/.." && pwd)
 export GOFLAGS=-mod=mod GOPROXY=off GOSUMDB=off GOTOOLCHAIN=local GOWORK=off
-bad=0
-for d in "$HERE"/seeded/${1:-}*/; do
+export HERE
+one() {
+  d=$1
   id=$(basename "$d")
   T=$(mktemp -d /tmp/ucanseeded.XXXXXX)
   mkdir -p "$T/repo" "$T/out"
   (cd /repo && git ls-files -z | xargs -0 cp --parents -t "$T/repo")
-  if ! (cd "$T/repo" && patch -s -p1 < "$d/patch.diff" >/dev/null 2>&1); then echo "SKIP   $id (patch does not apply to the current tree)"; rm -rf "$T"; continue; fi
-  if ! (cd "$T/repo" && go build ./... >/dev/null 2>&1); then echo "SKIP   $id (does not build on the current tree)"; rm -rf "$T"; continue; fi
+  if ! (cd "$T/repo" && patch -s -p1 < "$d/patch.diff" >/dev/null 2>&1); then echo "SKIP   $id (patch does not apply to the current tree)"; rm -rf "$T"; return; fi
+  if ! (cd "$T/repo" && go build ./... >/dev/null 2>&1); then echo "SKIP   $id (does not build on the current tree)"; rm -rf "$T"; return; fi
   "${UCANLINT:-$HERE/bin/ucanlint}" -property all -repo "$T/repo" -verif "$HERE" -out "$T/out" > "$T/log" 2>&1
   hits=$(grep '^  rule' "$T/log" | awk '{print $2}' | sort -u | tr '\n' ' ')
-  if [ -n "$hits" ]; then echo "CAUGHT $id -> $hits"; else echo "MISSED $id"; bad=1; fi
+  if [ -n "$hits" ]; then echo "CAUGHT $id -> $hits"; else echo "MISSED $id"; fi
   rm -rf "$T"
-done
-exit $bad
+}
+if [ "${1:-}" = "--one" ]; then one "$2"; exit 0; fi
+R=$(mktemp /tmp/ucanseeded.res.XXXXXX)
+ls -d "$HERE"/seeded/${1:-}*/ | xargs -P "${SEEDED_JOBS:-4}" -I{} "$0" --one {} > "$R" 2>&1
+sort "$R" | grep -v '^WARNING'
+bad=$(grep -c '^MISSED' "$R"); rm -f "$R"
+[ "$bad" = 0 ]
